@@ -241,6 +241,70 @@ def fmt_e9(u, sf, it, k, params, args, argspecs, name):
     return ((a, b), None, params, args, "String", "    ensures r@ == " + " + ".join(parts) + ",", dict(name=name, local=True))
 
 
+BR_PRE = """broadcast use vstd::std_specs::hash::group_hash_axioms;
+broadcast use axiom_string_obeys_key_model, axiom_fmt_http_error, axiom_to_string_string, axiom_value_text_string, axiom_value_text_string_ref, axiom_key_view_string,
+    axiom_into_bytes_vec, axiom_clone_is_copy_u8, axiom_to_string_usize_vis, lemma_append_vis, axiom_string_ext;
+proof { reveal_strlit(""); reveal_strlit(" "); assert(""@ =~= Seq::<char>::empty()); lits_auth(); lits_claims(); }
+"""
+BR_INV0 = """
+        invariant
+            builder_parts(request_builder) matches Some(p) ==> all_values_visible_ascii(hm_view(parts_headers(p))),
+"""
+BR_H0 = """
+    proof {
+        assert(all_values_visible_ascii(Map::<Seq<char>, Seq<http::header::HeaderValue>>::empty()));
+    }"""
+BR_H1 = """
+        proof {
+            let i0 = it.index@ as int;
+            assert(headers@.contains_key(*it.seq()[i0].0) && headers@[*it.seq()[i0].0] == *it.seq()[i0].1);
+            assert(vis(value@));
+        }"""
+BR_H2 = """
+        let ghost b1 = request_builder;
+"""
+BR_H3 = """
+        proof {
+            if builder_parts(request_builder) is Some {
+                let p1 = builder_parts(b1)->0;
+                let p2 = builder_parts(request_builder)->0;
+                assert(ascii_lower(crate::common::constants::AUTHORIZATION_HEADER@) == AUTH_H());
+                let val = choose|val: http::header::HeaderValue| hv_view(val) == authorization_value@
+                    && #[trigger] hm_appended(hm_view(parts_headers(p1)), AUTH_H(), val) == hm_view(parts_headers(p2));
+                assert(hv_view(val) =~= "Azure-HMAC-SHA256"@ + " "@ + key_guid@ + " "@ + mac_spec(key@, sig_input_spec(parts_method(p2), parts_uri(p2), parts_headers(p1), opt_slice(body))));
+            }
+            assert(signed_builder(request_builder, key_guid@, key@, opt_slice(body)));
+        }"""
+
+
+def fmt_e9_pos(u, sf, it, k, types, argspecs, name):
+    """like fmt_e9, for format! calls whose arguments are arbitrary expressions: the arguments stay at the call site (passed
+    by reference, in order), the stub is `format!(LIT, vx_a0, vx_a1, ..)` with LIT copied from the tree and the contract
+    generated from LIT ($ in an argspec = the stub parameter)"""
+    a, b = it["macros"][k]["span"]
+    txt = sf.s(a, b)
+    segs, fargs = u.parse_format_macro(txt)
+    if len(fargs) != len(argspecs):
+        raise Undecided("%s: format! #%d has %d arguments, contract expects %d" % (it["name"], k, len(fargs), len(argspecs)))
+    def q(x):
+        return '"' + x.replace("\\", "\\\\").replace('"', '\\"').replace("\n", "\\n") + '"@'
+    parts = []
+    for i, sg in enumerate(segs):
+        parts.append(q(sg))
+        if i < len(fargs):
+            parts.append("(" + argspecs[i].replace("$", "vx_a%d" % i) + ")")
+    lit = txt[txt.index('"'):]
+    # the literal token: from the first quote to its closing quote
+    j = 1
+    while lit[j] != '"' or lit[j - 1] == "\\":
+        j += 1
+    lit = lit[:j + 1]
+    params = ", ".join("vx_a%d: %s" % (i, t) for i, t in enumerate(types))
+    args = ", ".join(("&(%s)" % x) if types[i].startswith("&") and types[i] != "&str" else x for i, x in enumerate(fargs))
+    body = "format!(%s, %s)" % (lit, ", ".join("vx_a%d" % i for i in range(len(fargs))))
+    return ((a, b), None, params, args, "String", "    ensures r@ == " + " + ".join(parts) + ",", dict(name=name, local=True, body=body))
+
+
 def build(u):
     hc = u.src("proxy_agent/src/common/hyper_client.rs")
     hp = u.src("proxy_agent/src/common/helpers.rs")
@@ -251,11 +315,13 @@ def build(u):
     u.features += ["allocator_api", "sized_hierarchy", "pattern", "const_destruct", "const_trait_impl"]
     for f in ("str_axioms.rs", "ext_types.rs", "std_string.rs", "http.rs"):
         u.raw(open(os.path.join(COMMON, f)).read())
+    u.raw("use vstd::std_specs::hash::*;")
+    u.raw(open(os.path.join(COMMON, "hash_iter.rs")).read())
     u.raw_file("spec.rs")
     u.raw_file("deps.rs")
     with u.mod("proxy_agent_shared"):
         with u.mod("misc_helpers"):
-            u.take_fn(mh, "get_date_time_rfc1123_string", external_body=True)
+            u.take_fn(mh, "get_date_time_rfc1123_string", external_body=True, contract="        ensures vis(r@),   // an RFC 1123 date is ASCII text\n")
     with u.mod("key_keeper"):
         with u.mod("key"):
             u.take(key, "Key", "struct")
@@ -362,14 +428,40 @@ def build(u):
         requires builder_parts(*request_builder) matches Some(p) ==> all_values_visible_ascii(hm_view(parts_headers(p))),  // @C13.request_to_sign_input.header_values_visible_ascii
         ensures r matches Ok(d) ==> builder_parts(*request_builder) matches Some(p) && d@ == sig_input_spec(parts_method(p), parts_uri(p), parts_headers(p), opt_bytes(body)),  // @C04.request_to_sign_input.same_canonical_string_of_the_builders_parts
 """)
-            u.take_fn(hc, "host_port_from_uri", external_body=True)
+            u.take_fn(hc, "host_port_from_uri", external_body=True, contract="        ensures r matches Ok(hp) ==> vis(hp.0@),   // the host of an http::Uri is ASCII text\n")
             u.take_fn(hc, "empty_body", external_body=True, contract="        ensures box_body_bytes(r) == Seq::<u8>::empty(),\n")
             u.take_fn(hc, "full_body", external_body=True, contract="        ensures box_body_bytes(r) == into_bytes_view(chunk),\n")
             bit = hc.item("build_request", "fn")
+            if len(bit["macros"]) != 3 or len(bit["closures"]) != 1 or len(bit["loops"]) != 1:
+                raise Undecided("build_request: expected 3 format! calls, one closure, one loop")
+            clo = bit["closures"][0]
+            maps = [c for c in bit["calls"] if c["kind"] == "method" and c["callee"] == "map" and c["span"][0] <= clo["span"][0] and clo["span"][1] <= c["span"][1]]
+            if len(maps) != 1:
+                raise Undecided("build_request: body.map(closure) not found")
             u.take_fn(hc, "build_request",
                 extra_attrs="#[verifier::loop_isolation(false)]",
+                pre_body=BR_PRE,
+                loop_iter_names={0: "it"},
+                loops={0: BR_INV0},
+                e9=[("hyper::header::HOST", None, "", "", "hyper::header::HeaderName", "", dict(name="vx_e9_header_host", local=True)),
+                    ("hyper::header::CONTENT_LENGTH", None, "", "", "hyper::header::HeaderName", "", dict(name="vx_e9_header_content_length", local=True)),
+                    fmt_e9_pos(u, hc, bit, 0, ["&str", "bool"], ["$@", "bool_text($)"], "vx_e9_fmt_claims"),
+                    fmt_e9_pos(u, hc, bit, 1, ["&str", "&String", "&String"], ["$@", "$@", "$@"], "vx_e9_fmt_authorization_value"),
+                    # E9: Option::map with a closure (slice -> Vec copy)
+                    (tuple(maps[0]["span"]), None, "body: Option<&[u8]>", "body", "Option<Vec<u8>>", """
+    ensures opt_bytes(r) == opt_slice(body),""", dict(name="vx_e9_body_to_vec", local=True)),
+                    ((bit["matches"][3]["arms"][1]["body"][0], bit["matches"][3]["arms"][1]["body"][1]), None, "e: http::Error", "e", "Result<Request<BoxBody<Bytes, hyper::Error>>>", "    ensures r is Err,",
+                     dict(name="vx_e9_request_builder_error", local=True)),
+                    ],
+                hints=[("let mut request_builder = Request::builder()", None, "before", BR_H0),
+                       ("request_builder = request_builder.header(key, value);", None, "before", BR_H1),
+                       ("let input_to_sign = ", None, "before", BR_H2),
+                       ("constants::AUTHORIZATION_HEADER.to_string(),", None, "after", BR_H3)],
                 contract="""
-        requires pair_ok(key_guid, key),
+        requires pair_ok(key_guid, key),  // @C10.build_request.key_id_and_key_latched_together
+                 forall|k: String| headers@.contains_key(k) ==> vis(#[trigger] headers@[k]@),  // @C13.build_request.caller_header_values_visible_ascii
+        ensures r matches Ok(req) ==> box_body_bytes(req_body(req)) == opt_slice(body),  // @C04.build_request.body_sent_is_the_body_signed
+                r matches Ok(req) ==> (key is Some && key_guid is Some ==> signed_request(req, key_guid->0@, key->0@, opt_slice(body))),  // @C04+C10.build_request.signed_last_over_own_parts_key_id_paired_with_its_mac
 """)
             u.take_fn(hc, "should_skip_sig",
                 pre_body="broadcast use axiom_to_string_uri;\nproof { lits_skip(); }",
